@@ -1610,12 +1610,23 @@ def _bytes_source(arr):
     return None
 
 
+def _m_int_cmp(eng, st, callee, args, ev):
+    """`PartialOrd::lt(&a, &b)` / `PartialEq::eq(&a, &b)` on primitive integers (reached through a generic `T: PartialOrd` helper
+    instantiated with an integer type) is the machine comparison"""
+    sty = callee.get("self_ty") or (callee.get("args") or [""])[0]
+    op = {"lt": "Lt", "le": "Le", "gt": "Gt", "ge": "Ge", "eq": "Eq", "ne": "Ne"}.get(callee.get("name"))
+    if op is None or sty not in INT_BITS or len(args) != 2:
+        return NotImplemented
+    vals = [eng.read(st, a[1]) if a[0] == "ref" else a for a in args]
+    return mk_bin(op, vals[0], vals[1], sty)
+
+
 def _m_array_eq(eng, st, callee, args, ev):
     """`x.to_le_bytes() == bytes` on [u8; N] is `x == uN::from_le_bytes(bytes)` (the two are inverse bijections): comparing in the wire
     representation or as integers is the same test"""
     sty = (callee.get("args") or [""])[0]
     if len(args) != 2 or not re.match(r"^\[u8; \d+\]$", sty or ""):
-        return NotImplemented
+        return _m_int_cmp(eng, st, callee, args, ev)
     vals = []
     for a in args:
         vals.append(eng.read(st, a[1]) if a[0] == "ref" else a)
@@ -1946,8 +1957,10 @@ def _closure_call(cf, env_local, env_ref_local, arg_operands, dest, target, stmt
             "line": None, "exp": True}
 
 
-def _has_effects(eng, cf):
-    """does the closure body call anything that is not a model or write through a pointer? (cheap syntactic scan of its MIR)"""
+def _has_effects(eng, cf, F=None, depth=0):
+    """does the closure body call anything that is not a model or write through a pointer? (cheap syntactic scan of its MIR; a call of a
+    small private function of the analysed crates is followed: `|&b| is_sentinel(b)` has no more effects than `is_sentinel`)"""
+    F = F or getattr(eng, "facts", None)
     for bb in cf.blocks:
         t = bb["term"]
         if t["k"] == "call":
@@ -1956,6 +1969,9 @@ def _has_effects(eng, cf):
                 return True
             k = callee_key(c)
             if k in eng.models or k in eng.syn:
+                continue
+            g = F.fn_by_canon((c.get("resolved") or {}).get("canon") or c.get("canon") or "") if F is not None else None
+            if g is not None and depth < 3 and g is not cf and g.blocks and len(g.blocks) <= 16 and not _has_effects(eng, g, F, depth + 1):
                 continue
             return True
         for s in bb["stmts"]:
@@ -2816,6 +2832,9 @@ MODELS = {
     "std::ops::RangeInclusive::<Idx>::new": _m_range_incl_new,
     "core::ops::range::RangeInclusive::<Idx>::new": _m_range_incl_new,
     "core::convert::From::from": _m_from_bool,
+    "core::cmp::PartialOrd::lt": _m_int_cmp, "core::cmp::PartialOrd::le": _m_int_cmp,
+    "core::cmp::PartialOrd::gt": _m_int_cmp, "core::cmp::PartialOrd::ge": _m_int_cmp,
+    "core::cmp::PartialEq::eq": _m_int_cmp, "core::cmp::PartialEq::ne": _m_int_cmp,
     "core::ops::try_trait::FromResidual::from_residual": _m_from_residual,
     "std::option::Option::<T>::is_some": _m_is_some,
     "std::option::Option::<T>::is_none": _m_is_none,
